@@ -249,7 +249,9 @@ func main() {
 	}
 	for _, m := range d.models {
 		if !known[m[0]] {
-			fatal(*outp, o, fmt.Errorf("modelled callee %s does not exist in the program", m[0]))
+			// the callee is not part of the program (any more): the model is
+			// unused; recorded so that a renamed callee does not go unnoticed
+			eng.allNotes["modelled callee "+m[0]+" does not exist in the loaded program (model unused)"] = true
 		}
 	}
 
